@@ -7,7 +7,8 @@ RULE = ("generated programs x seeded free-form layouts (continuation cuts at tok
         "with/without leading '&', blank/comment lines between continuation lines, trailing comments, indentation, extra blanks, "
         "';' joins, case changes); oracle: tree(layout) == tree(canonical) exactly (case-insensitively outside literals only when "
         "the layout changed case); separate streams: ';' joins, and adjacent-keyword pairs stressed one at a time; "
-        "non-trivial = the layout took >= 3 continuation/comment/semicolon decisions")
+        "non-trivial = the layout took >= 3 continuation/comment/semicolon decisions"
+        " Correspondence: the reader model Fp.Reader is run on every second laid-out source and its item stream compared with the real reader's (both comment settings).")
 ASSUMPTIONS = ["'same items => same tree' needs leaf matchers to be insensitive to blanks between tokens: exercised, not proved"]
 TIE_MODULES = ["FparserModel.Reader"]
 
@@ -64,6 +65,9 @@ def run_case(case):
     res["nontrivial"] = ndec >= 3
     res["sample"] = {"seed": case["seed"], "mode": mode, "decisions": dict(L.decisions), "head": src[:300]}
     o1 = real.try_parse(src, std=std, ignore_comments=True, free=True)
+    if case["seed"] % 2 == 0:
+        res["findings"] += util.reader_cosim(src, "free", case=case)
+        res["counts"]["reader-cosim"] = 1
     fold = mode == "case"
     ctx = {"std": std, "ignore_comments": True, "mode": mode}
 
